@@ -15,6 +15,12 @@ func zzCloseArg(kind int) error {
 		return zzErrUserClose
 	case 2:
 		return fmt.Errorf("wrapped: %w", zzErrUserClose)
+	case 3:
+		return &zzNetErr{timeout: true} // e.g. a read deadline handed to Close by an exception handler
+	case 4:
+		return fmt.Errorf("wrapped: %w", &zzNetErr{timeout: true})
+	case 5:
+		return &zzNetErr{timeout: false}
 	}
 	return nil
 }
